@@ -30,6 +30,11 @@ type JobSpec struct {
 	KFOpen   []string       `json:"kf_open"`
 	Must     []string       `json:"must_reach_funcs"` // substrings of function names that must be executed
 	GosymSrc string         `json:"gosym_src"`        // path of the gosym API package source
+	// Overrides: ssa function name -> "import/path.Func" of a replacement with the same parameters
+	// (receiver first).  Used for environment seams that are concrete types (DESIGN 3.2).
+	Overrides map[string]string `json:"overrides,omitempty"`
+	// Extra overlay files for other packages: repo-relative package dir -> files (package clause kept)
+	Extra map[string][]string `json:"extra,omitempty"`
 }
 
 type JobResult struct {
@@ -85,6 +90,16 @@ func HarnessOverlay(spec *JobSpec) (map[string][]byte, string, error) {
 		}
 		base := strings.TrimSuffix(filepath.Base(f), ".go")
 		ov[filepath.Join(pkgDir, "zz_verif_"+base+".go")] = []byte(strings.Join(lines, "\n"))
+	}
+	for dir, files := range spec.Extra {
+		for _, f := range files {
+			src, err := os.ReadFile(f)
+			if err != nil {
+				return nil, "", err
+			}
+			base := strings.TrimSuffix(filepath.Base(f), ".go")
+			ov[filepath.Join(spec.Repo, dir, "zz_verif_"+base+".go")] = src
+		}
 	}
 	gsrc, err := os.ReadFile(spec.GosymSrc)
 	if err != nil {
@@ -171,6 +186,16 @@ func RunJob(spec JobSpec) (res JobResult) {
 	}
 	for _, k := range spec.KFOpen {
 		e.KFOpen[k] = true
+	}
+	e.Overrides = map[string]*ssa.Function{}
+	for from, to := range spec.Overrides {
+		i := strings.LastIndex(to, ".")
+		pkg := prog.ImportedPackage(to[:i])
+		if pkg == nil || pkg.Func(to[i+1:]) == nil {
+			res.Infra = "override target not found: " + to
+			return
+		}
+		e.Overrides[from] = pkg.Func(to[i+1:])
 	}
 	t1 := time.Now()
 	res.Infra = Explore(prog, fn, e)
